@@ -6,7 +6,8 @@ The model describes the code AS IT IS (defects included: slice elements lose the
 are truncated to uint16, …).
 
 The `inline` flag is modelled only where it changes behaviour (a nil map reached with `inline` writes nothing,
-without it the empty-map marker). Not modelled: recursive types (the `seen` map), unsafe layout. Those are exercised by the harness only.
+without it the empty-map marker). Not modelled: recursive types (the `seen` map), unsafe layout. Those are exercised by the harness only
+(the nesting limit on a recursive type: unrolled in `Enc/Driver/Proto.lean` (`proto.deep`) and `Enc/Lemmas/ProtoDeepChain.lean`).
 -/
 namespace Enc.Model.Proto
 open Enc
@@ -142,6 +143,20 @@ def Codec.height : Codec → Nat
 def CFields.height : CFields → Nat
   | .nil => 0
   | .cons _ _ _ _ c rest => max (Codec.height c) (CFields.height rest)
+end
+
+mutual
+/-- number of message levels on the deepest path of a codec tree: what `flags >> depthShift` can reach while a value of
+this type is decoded (structs count, the entry struct of a map included; pointers and slices do not) -/
+def Codec.nesting : Codec → Nat
+  | .ptr c => Codec.nesting c
+  | .struct fs => CFields.nesting fs + 1
+  | .slice e _ _ _ => Codec.nesting e
+  | .map _ _ _ _ _ entry => Codec.nesting entry
+  | _ => 0
+def CFields.nesting : CFields → Nat
+  | .nil => 0
+  | .cons _ _ _ _ c rest => max (Codec.nesting c) (CFields.nesting rest)
 end
 
 def Codec.wire : Codec → Wire
@@ -488,10 +503,14 @@ def skipUnknown (w : Nat) (b : Bytes) (lenB : Nat) : Res Nat :=
   r.bind fun skip => if skip ≤ b.length then .ok skip else .err "unexpectedEof"
 
 mutual
--- go: the `decode` functions; returns the new value of the target and the number of bytes consumed
-def decode : Nat → Codec → Bytes → Val → Flags → Res (Val × Nat)
-  | 0, _, _, _, _ => .err "fuel"
-  | fuel + 1, c, b, cur, fl =>
+-- go: the `decode` functions; returns the new value of the target and the number of bytes consumed.
+-- `d` = `flags >> depthShift`, the number of messages being decoded around the value (commit b70a382): incremented by
+-- every struct decoder — top-level message, embedded message, repeated element, the synthetic {Key, Elem} struct of a
+-- map entry — and by nothing else (pointers pass the flags on; slices and maps keep only the counter, `flags.depth()`).
+-- A struct decoder entered with `d + 1 > maxDepth` fails with errNestingTooDeep before it reads a byte.
+def decode : Nat → Nat → Codec → Bytes → Val → Flags → Res (Val × Nat)
+  | 0, _, _, _, _, _ => .err "fuel"
+  | fuel + 1, d, c, b, cur, fl =>
     match c with
     | .bool => (decodeVarint b).bind fun (u, n) => .ok (.bool (u != 0#64), n)
     | .int => (decodeVarint b).bind fun (u, n) => .ok (.int (fl.i64 u), n)
@@ -534,14 +553,17 @@ def decode : Nat → Codec → Bytes → Val → Flags → Res (Val × Nat)
       else (decodeVarlen b).bind fun (v, n) => .ok (.str v, n)
     | .ptr c' =>
       let tgt := match cur with | .ptr v => v | _ => zeroOfCodec c'
-      (decode fuel c' b tgt fl).bind fun (v, n) => .ok (.ptr v, n)
+      (decode fuel d c' b tgt fl).bind fun (v, n) => .ok (.ptr v, n)      -- pointerDecodeFuncOf passes the flags on unchanged
     | .struct fs =>
-      match cur with
-      | .struct vs => (decodeStruct fuel fs b b.length vs { fl with toplevel := false } 0).bind fun (vs', n) => .ok (.struct vs', n)
-      | _ => .err "modelType"
+      -- `flags = flags.without(toplevel) + 1<<depthShift; if flags>>depthShift > maxDepth { return 0, errNestingTooDeep }`
+      if d + 1 > Gen.c_proto_maxDepth then .err "nestingTooDeep"
+      else
+        match cur with
+        | .struct vs => (decodeStruct fuel (d + 1) fs b b.length vs { fl with toplevel := false } 0).bind fun (vs', n) => .ok (.struct vs', n)
+        | _ => .err "modelType"
     | .slice elem _ _ _ =>
       let cur' : Vals := match cur with | .list vs => vs | _ => .nil
-      match decode fuel elem b (zeroOfCodec elem) {} with
+      match decode fuel d elem b (zeroOfCodec elem) {} with          -- `flags.depth()`: only the counter survives
       | .ok (v, n) => .ok (.list (Vals.ofList (cur'.toList ++ [v])), n)
       | .err e => .err e
       | .panic e => .panic e
@@ -549,16 +571,16 @@ def decode : Nat → Codec → Bytes → Val → Flags → Res (Val × Nat)
       let cur' : Vals := match cur with | .map kvs => kvs | _ => .nil
       if b.isEmpty then .ok (.map cur', 0)
       else
-        match decode fuel entry b (zeroOfCodec entry) {} with
+        match decode fuel d entry b (zeroOfCodec entry) {} with      -- `flags.depth()`; the entry struct is one more level
         | .ok (.struct (.cons k (.cons v .nil)), n) => .ok (.map (mapAssign cur' k v valEqShow), n)
         | .ok _ => .err "modelType"
         | .err e => .err e
         | .panic e => .panic e
     | .unsupported => .panic "unsupportedType"
 -- go: structDecodeFuncOf — the `for offset < len(b)` loop; `b` is b[offset:], `lenB` = len of the whole buffer
-def decodeStruct : Nat → CFields → Bytes → Nat → Vals → Flags → Nat → Res (Vals × Nat)
-  | 0, _, _, _, _, _, _ => .err "fuel"
-  | fuel + 1, fs, b, lenB, vs, fl, offset =>
+def decodeStruct : Nat → Nat → CFields → Bytes → Nat → Vals → Flags → Nat → Res (Vals × Nat)
+  | 0, _, _, _, _, _, _, _ => .err "fuel"
+  | fuel + 1, d, fs, b, lenB, vs, fl, offset =>
     if b.isEmpty then .ok (vs, offset)
     else
       match decodeVarint b with
@@ -572,7 +594,7 @@ def decodeStruct : Nat → CFields → Bytes → Nat → Vals → Flags → Nat 
         match lookupField fs number with
         | none =>
           (skipUnknown w b1 lenB).bind fun skip =>
-            decodeStruct fuel fs (b1.drop skip) lenB vs fl (off1 + skip)
+            decodeStruct fuel d fs (b1.drop skip) lenB vs fl (off1 + skip)
         | some (i, emb, zz, c) =>
           if w != c.wire.num then .err "wireType"
           else
@@ -587,8 +609,8 @@ def decodeStruct : Nat → CFields → Bytes → Nat → Vals → Flags → Nat 
               else if w == 1 then (if b1.length < 8 then .err "unexpectedEof" else .ok (b1.take 8, 0))
               else .err "wireTypeUnknown"
             carve.bind fun (data, pre) =>
-              (decode fuel c data (Vals.get vs i) { fl with zigzag := fl.zigzag || zz }).bind fun (v, m) =>
-                decodeStruct fuel fs (b1.drop (pre + m)) lenB (Vals.set vs i v) fl (off1 + pre + m)
+              (decode fuel d c data (Vals.get vs i) { fl with zigzag := fl.zigzag || zz }).bind fun (v, m) =>
+                decodeStruct fuel d fs (b1.drop (pre + m)) lenB (Vals.set vs i v) fl (off1 + pre + m)
 end
 
 /-! ## entry points -/
@@ -601,7 +623,7 @@ def marshal (t : Ty) (v : Val) : Bytes := encode (codecOf t) v { toplevel := tru
 def unmarshal (t : Ty) (b : Bytes) : Res Val :=
   if b.isEmpty then .ok (zeroOf t)
   else
-    match decode (2 * b.length + 8 + Codec.height (codecOf t)) (codecOf t) b (zeroOf t) { toplevel := true } with
+    match decode (2 * b.length + 8 + Codec.height (codecOf t)) 0 (codecOf t) b (zeroOf t) { toplevel := true } with
     | .ok (v, n) => if n < b.length then .err "trailing" else .ok v
     | .err e => .err e
     | .panic e => .panic e
